@@ -44,9 +44,9 @@ def correspond(ctx):
     seeds = ctx.n(['0', '1', '4242'], ['0', '1', '2', '3', '77', '4242', '65535', '123456789'])
     runs = [('nrt', s) for s in seeds] + [('rt', seeds[1])]
     results = {}
-    for mode, hs in runs:
+    for k_, (mode, hs) in enumerate(runs):
         try:
-            results[(mode, hs)] = ctx.impl('c20_builds', payload, mode=mode, hashseed=hs, timeout=600)
+            results[(mode, hs)] = ctx.impl('c20_builds', dict(payload, order=k_), mode=mode, hashseed=hs, timeout=600)
         except fw.ImplError as e:
             if 'exported buffers' in str(e) or 'rc=-11' in str(e):
                 if not any(f.signature == 'C20:gc-segfault-as-bytes' for f in c.failures):
